@@ -246,6 +246,15 @@ class World:
         if k == "bad_insert_multiple":
             _, pnames, pos, wid, via = op
             pts = [A.mk_point(n) for n in pnames]
+            if wid == "genraise":
+                def gen():
+                    for i, p in enumerate(pts):
+                        if i == pos:
+                            raise ValueError("the caller's iterable failed")  # not a TypeError
+                        yield p
+                    raise ValueError("the caller's iterable failed")
+
+                return self._target(via).insert_multiple(gen())
             pts.insert(pos, BAD_VALUES[wid]())
             return self._target(via).insert_multiple(pts)
         if k == "update_raise":
